@@ -6,7 +6,9 @@ from reactivex import operators as ops
 from simlib import catalog, timemodels as tm, vt
 from simlib.core import Outcome
 
-FORMS = ["delay", "delay", "delay_timedelta", "delay_absolute", "delay_subscription", "delay_subscription_absolute", "delay_with_mapper", "delay_with_mapper_sub", "timestamp", "time_interval"]
+FORMS = ["delay", "delay", "delay_timedelta", "delay_absolute", "delay_subscription", "delay_subscription_absolute", "delay_with_mapper", "delay_with_mapper_sub", "timestamp", "time_interval",
+         "timestamp_own_clock", "time_interval_own_clock"]
+PARKED = 5000.0  # the operator's own scheduler (a second virtual clock that nobody advances) stands at this time
 
 
 def sc_sources_tail(ctx, n):
@@ -26,7 +28,7 @@ class Prop:
     thorough_runs = 2500000
     rule = ("one generated cold/hot/sync timeline through delay (0 / float / timedelta / absolute datetime), delay_subscription "
             "(relative / absolute), delay_with_mapper (with and without subscription delay; delay sources from a cold pool), timestamp "
-            "and time_interval, on TestScheduler (numeric clock) and HistoricalScheduler (datetime clock); output (values, virtual "
+            "and time_interval (also with a scheduler of their own whose clock differs from the subscription's), on TestScheduler (numeric clock) and HistoricalScheduler (datetime clock); output (values, virtual "
             "times, terminal) compared with event-driven references (every element and the completion exactly d later in order, errors "
             "at once, release at the delay source's first event, clock readings). Same-instant ties between a source event and an operator "
             "timer are accepted under any resolution. Distinct = (form, args, output); non-trivial = at least two notifications.")
@@ -75,6 +77,11 @@ class Prop:
             return s.pipe(ops.delay_with_mapper(w.sources[sc["sub_delay"]], lambda v: w.sources[pick(v)]))
         if f == "timestamp":
             return s.pipe(ops.timestamp())
+        if f.endswith("_own_clock"):
+            # the operator is given a scheduler of its own whose clock differs from the one the subscription runs on
+            from reactivex.scheduler import HistoricalScheduler
+            own = HistoricalScheduler(vt.UTC0 + timedelta(seconds=PARKED))
+            return s.pipe(ops.timestamp(scheduler=own) if f.startswith("timestamp") else ops.time_interval(scheduler=own))
         return s.pipe(ops.time_interval())
 
     def model(self, eng, sc):
@@ -95,6 +102,10 @@ class Prop:
             return tm.m_delay(eng, sid, d)
         if f == "timestamp":
             return tm.m_timestamp(eng, sid)
+        if f == "timestamp_own_clock":
+            return tm.single(eng, sid, lambda v: eng.emit("N", ("ts", v, PARKED)))  # the reading of the operator's own clock
+        if f == "time_interval_own_clock":
+            return tm.single(eng, sid, lambda v: eng.emit("N", ("ti", v, 0.0)))  # that clock never moves
         return tm.m_time_interval(eng, sid)
 
     @staticmethod
